@@ -100,7 +100,9 @@ func FBP(reftree *tree.Tree, boottrees <-chan tree.Trees, cpus int, sup *Support
 	}
 
 	for i, count := range foundBoot {
-		if !edges[i].Right().Tip() {
+		// A branch of a rooted tree whose sibling is a tip defines the same
+		// trivial bipartition as that tip branch: no support either
+		if td, _ := edges[i].TopoDepth(); !edges[i].Right().Tip() && td > 1 {
 			//fmt.Printf("%d: %d/%d\n", i, count, ntrees)
 			edges[i].SetSupport(float64(count) / float64(ntrees))
 		}
